@@ -884,6 +884,106 @@ def rule_r_seek_on_every_access(ctx, fns):
     return n
 
 
+def rule_s_stream_sequences_validated(ctx, pdfs, local):
+    """`whatever the ... segment order in the stream`: the address function finds a segment / TOF bin in the stored sequence with
+    std::find - for a sequence that misses a number the result is end() (data written beyond the end of the data), for one with a
+    duplicate two segments share a position.  So every function that stores a caller-supplied sequence passes it (or the member)
+    to a function that can reach error() (F96)."""
+    RULE = "C02.s-stream-sequences-validated"
+    MEMBERS = ("segment_sequence", "timing_poss_sequence")
+    fns = [f for f in pdfs.functions if f.body is not None]
+    allf = fns + [f for f in (local.functions if local is not None else []) if f.body is not None]
+    can_error = {f.qn for f in allf if any((c.callee or "").split("::")[-1] == "error" for c in f.calls())}
+    seen = set()
+    n = 0
+    for f in fns:
+        if (f.file, f.body.line) in seen:
+            continue
+        params = {"v%d" % p["d"]: p for p in f.params if "vector<int" in p["t"]}
+        if not params:
+            continue
+        stored = []  # (member, node)
+        for it, node in f.inits:
+            if it.get("field") in MEMBERS and node is not None and any(x.k == "DeclRefExpr" and "v%d" % x.get("d") in params for x in node.walk()):
+                stored.append((it.get("field"), node))
+        for m in f.walk():
+            if m.k in ("BinaryOperator", "CXXOperatorCallExpr") and m.op == "=" and len(m.c) >= 2:
+                lhs = key(m.c[-2].strip() if m.k == "CXXOperatorCallExpr" else m.c[0].strip())
+                if lhs in tuple("this." + x for x in MEMBERS) and any(x.k == "DeclRefExpr" and "v%d" % x.get("d") in params for x in m.c[-1].walk()):
+                    stored.append((lhs[5:], m))
+        if not stored:
+            continue
+        seen.add((f.file, f.body.line))
+        for member, node in stored:
+            ok = False
+            for c in f.calls():
+                if c.callee in can_error and any(key(a.strip()) == "this." + member or key(a.strip()) in params for a in c.call_args()):
+                    ok = True
+            ctx.ob(RULE, f.qn + "(" + f.sig[:30] + ")", "stores:" + member, ok, node.where() if node is not None else f.where(), "the sequence is passed to a function that reports an invalid one" if ok else "a caller-supplied sequence is stored in %s unchecked: a sequence that is not a permutation of the numbers puts data beyond the end of the stream, or two pieces on one position" % member)
+            n += 1
+    return n
+
+
+def rule_t_layout_keys_written(ctx, readers, hdrfns, writer_fns, kwfns):
+    """`writing data with its header and reading the pair back yields equal ... values`: a layout attribute that the Interfile reader
+    hands to the ProjDataFromStream through a setter (after construction) comes from a header key; the header writer emits that key
+    (F97: `TOF bin order` was read but never written)."""
+    RULE = "C02.t-layout-keys-written"
+    from rules.C10 import _emissions, standardise
+
+    emitted = set()
+    for f in writer_fns:
+        for e in _emissions(f):
+            emitted.add(standardise(e[0]))
+    # header members -> registered key
+    reg = {}
+    for f in hdrfns:
+        for c in f.calls():
+            if (c.callee or "").split("::")[-1] in ("add_key", "add_vectorised_key", "ignore_key") and len(c.call_args()) >= 2:
+                a = c.call_args()
+                k0 = a[0].strip()
+                txt = next((x.get("v") for x in k0.walk() if x.k == "StringLiteral"), None)
+                mems = [x for x in a[1].walk() if x.k == "MemberExpr"]
+                if txt and mems:
+                    reg.setdefault(key(mems[0], True).split(".")[-1], standardise(txt))
+    n = 0
+    for f in readers:
+        for c in f.calls():
+            cal = (c.callee or "")
+            if not (cal.startswith("stir::ProjDataFromStream::set_") and c.call_args()):
+                continue
+            arg = key(c.call_args()[0].strip(), True)
+            mem = arg.split(".")[-1]
+            k = reg.get(mem)
+            if k is None:
+                ctx.unrec(f.qn, "C02.t: header member `%s` handed to %s has no registered key" % (arg, cal.split("::")[-1]))
+                continue
+            ok = k in emitted
+            ctx.ob(RULE, f.qn + "(" + f.sig[:25] + ")", cal.split("::")[-1] + "<-" + k, ok, c.where(), "the header writer emits `%s`" % k if ok else "the reader takes the layout attribute from key `%s`, which the header writer never emits: data whose attribute differs from the reader's default are read back in the wrong places" % k)
+            n += 1
+    return n
+
+
+def rule_u_header_for_every_storage_order(ctx, writer, enums):
+    """`whatever the storage order`: the header writer's switch over the storage order of the data has a case for every enumerator a
+    ProjDataFromStream can hold (all but Unsupported) - a missing one means that data in that layout cannot be given a header
+    (F98: TOF data stored by sinogram)."""
+    RULE = "C02.u-header-for-every-storage-order"
+    en = [e for e in enums if e["qn"].endswith("ProjDataFromStream::StorageOrder")]
+    if not en:
+        ctx.fail_broken("enum ProjDataFromStream::StorageOrder not found")
+        return
+    names = {e["v"]: e["n"] for e in en[0]["enumerators"]}
+    sw = [m for m in writer.walk() if m.k == "SwitchStmt" and "get_storage_order" in key(m.c[0], True)]
+    if not sw:
+        ctx.unrec(writer.qn, "C02.u: no switch over get_storage_order() in the header writer")
+        return
+    vals = {m.get("cv") for m in sw[0].walk() if m.k == "CaseStmt" and "cv" in m.d}
+    want = {v for v, n in names.items() if n != "Unsupported"}
+    missing = sorted(names[v] for v in want - vals)
+    ctx.ob(RULE, writer.qn, "switch", not missing, sw[0].where(), "cases for all %d storage orders" % len(want) if not missing else "no case for %s: data in that layout cannot be written with a header although the reader supports it" % missing)
+
+
 def run(ctx):
     ctx.explanation = (
         "Decides structural necessary conditions of C02 from the source: (a) all five bin coordinates are range-checked "
@@ -926,6 +1026,8 @@ def run(ctx):
     rule_c_single_address_map(ctx, pdfs, pdim)
     rule_r_seek_on_every_access(ctx, pdfs.functions)
     ctx.require_count("C02.r-reposition-on-every-access", 2)
+    rule_s_stream_sequences_validated(ctx, pdfs, pdfs_local)
+    ctx.require_count("C02.s-stream-sequences-validated", 2)
     rule_p_segment_checked_on_entry(ctx, [(pdfs, "stir::ProjDataFromStream", pdfs_local), (pdim, "stir::ProjDataInMemory", pdim_local)])
     ctx.require_count("C02.p-segment-checked-before-table-lookup", 7)
     rule_k_address_names_the_piece(ctx, [(pdfs, "stir::ProjDataFromStream", "stir::ProjDataFromStream::get_offset"), (pdim, "stir::ProjDataInMemory", "stir::ProjDataInMemory::get_index")])
@@ -940,6 +1042,8 @@ def run(ctx):
         ctx.fail_broken("anchor write_basic_interfile_PDFS_header(.., const ProjDataFromStream&) not found")
     else:
         rule_g_header_segment_order(ctx, hw[0])
+        rule_u_header_for_every_storage_order(ctx, hw[0], pdfs.enums)
+        ctx.require_count("C02.u-header-for-every-storage-order", 1)
         iw = [f for f in (helpers.functions if helpers else []) if f.short == "write_basic_interfile_image_header" and f.body is not None and "ExamInfo" in f.sig]
         if not iw:
             ctx.fail_broken("anchor write_basic_interfile_image_header(.., const ExamInfo&, ..) not found")
@@ -965,6 +1069,10 @@ def run(ctx):
         used_helpers = [f for f in fl(helpers) if f.qn in called]
         header_keys_agree(ctx, fl(ifile) + used_helpers, fl(hdr) + fl(hdrspect), fl(kwu), rule="C02.h-header-keys-agree", writers=("write_basic_interfile_PDFS_header", "write_interfile_"))
         ctx.require_count("C02.h-header-keys-agree", 25)
+        rdu = ctx.ex.get(Request("src/IO/interfile.cxx", fn=["stir::read_interfile_PDFS.*"], files=["/repo/src/IO/interfile.cxx"]))
+        if rdu is not None:
+            rule_t_layout_keys_written(ctx, fl(rdu), fl(hdr) + fl(hdrspect), fl(ifile) + used_helpers, fl(kwu))
+            ctx.require_count("C02.t-layout-keys-written", 2)
         # m, n, o: the three header-text clauses of C10 applied to the projection-data header ("writing data with its header and reading
         # the pair back yields equal geometry, exam information and values"): numbers that must come back as the same float are
         # written with max_digits10 digits (scale factor: multiplies the stored numbers; bed positions: compared exactly by
